@@ -37,8 +37,10 @@ theorem needParen_frame {ps ps1 : PrintState} {t : Tk} {b : Bool} {o : Nat} (h :
   · cases h
   · cases h; exact ⟨rfl, rfl⟩
 
-theorem compactSep_frame (ps : PrintState) (s i) : Frame ps (compactSep ps s i) := by
-  unfold compactSep; split <;> (try split) <;> exact ⟨rfl, rfl⟩
+theorem compactSep_frame (ps : PrintState) (s i fb) : Frame ps (compactSep ps s i fb) := by
+  unfold compactSep; dsimp only; split
+  · exact ⟨rfl, rfl⟩
+  · exact ⟨by simp, by simp⟩
 
 theorem longFormSep_frame (ps : PrintState) (s i) : Frame ps (longFormSep ps s i) := by
   unfold longFormSep
@@ -257,7 +259,7 @@ theorem printStmtLoop_frame (tbl : Nat → Bool) : ∀ (l : List (Option Node)) 
       · next _ heq =>
         have f := printO_frame tbl x _ _ heq
         have f2 := printStmtLoop_frame tbl xs _ _ _ h
-        have f3 := compactSep_frame ps x i
+        have f3 := fun fb => compactSep_frame ps x i fb
         have f4 := longFormSep_frame ps x i
         fr_close
 
